@@ -14,6 +14,8 @@ def _norm(v):
                     _norm(v.values))
     except ImportError:
         pass
+    if isinstance(v, type):
+        return ("class", v.__module__ + "." + v.__qualname__)
     if isinstance(v, np.ndarray):
         if v.dtype == object:
             return ("objarr", tuple(_norm(x) for x in v.ravel().tolist()))
